@@ -39,11 +39,13 @@
 #include <fcppt/type_iso/decorate.hpp>
 #include <fcppt/type_iso/strong_typedef.hpp>
 #include <fcppt/type_iso/undecorate.hpp>
+#include <fcppt/optional/object_impl.hpp>
 #include <cstddef>
 #include <cstdint>
 #include <functional>
 #include <type_traits>
 #include <utility>
+#include <vector>
 
 namespace
 {
@@ -68,7 +70,6 @@ void st_binary()
   verif_assert((x ^ y).get() == static_cast<T>(a ^ b), "strong_typedef ^");
   verif_assert((~x).get() == static_cast<T>(~a), "strong_typedef ~");
   verif_assert(x.get() == a && y.get() == b, "operands are unchanged");
-  static_assert(std::is_same_v<decltype(x + y), st<T>> && std::is_same_v<decltype(~x), st<T>>, "operators stay in the strong typedef");
   // comparison
   verif_assert((x < y) == (a < b), "strong_typedef <");
   verif_assert((x <= y) == (a <= b), "strong_typedef <=");
@@ -87,41 +88,73 @@ void st_binary()
   verif_reach("st_binary-end");
 }
 
-// ---- operators that modify their left operand
+// ---- operators that modify their left operand.
+// "Returns the left operand itself" is decided at RUN time and written so that it still compiles when a return type
+// changes from a reference to a value: the result is bound with `auto &&r = (x op= y)` (a prvalue would be lifetime
+// extended), `&r == &x` is asserted, and the operator is applied a second time THROUGH r (a chained `(x op= y) op= z`):
+// with a by-value result the second application is lost and the final value of x differs from the built-in chain.
 template <typename T>
 void st_assign()
 {
-  T const a{sym<T>("a")}, b{sym<T>("b")};
+  T const a{sym<T>("a")}, b{sym<T>("b")}, c{sym<T>("c")};
   unsigned const op{verif_u8("op")};
   verif_assume(op < 10);
   st<T> x{a};
-  st<T> const y{b};
-  T e{a};        // expected new value of x
-  T r{0};        // expected value of the expression
-  bool same_object{true};
-  st<T> *res{nullptr};
-  st<T> tmp{T{0}};
+  st<T> const y{b}, z{c};
+  T u{a};        // the same chain on the underlying built-in type
+  T rv{0};       // value of the first expression
+  T erv{0};      // its expected value
+  bool same{false}, esame{true};
   switch (op)
   {
-  case 0: res = &(x += y); e = static_cast<T>(a + b); r = e; break;
-  case 1: res = &(x -= y); e = static_cast<T>(a - b); r = e; break;
-  case 2: res = &(x *= y); e = static_cast<T>(a * b); r = e; break;
-  case 3: res = &(x &= y); e = static_cast<T>(a & b); r = e; break;
-  case 4: res = &(x |= y); e = static_cast<T>(a | b); r = e; break;
-  case 5: res = &(x ^= y); e = static_cast<T>(a ^ b); r = e; break;
-  case 6: res = &(++x); e = static_cast<T>(a + 1); r = e; break;
-  case 7: res = &(--x); e = static_cast<T>(a - 1); r = e; break;
-  case 8: tmp = x++; res = &tmp; e = static_cast<T>(a + 1); r = a; same_object = false; break;
-  default: tmp = x--; res = &tmp; e = static_cast<T>(a - 1); r = a; same_object = false; break;
+  case 0: { auto &&r = (x += y); same = (&r == &x); rv = r.get(); r += z; erv = (u += b); u += c; break; }
+  case 1: { auto &&r = (x -= y); same = (&r == &x); rv = r.get(); r -= z; erv = (u -= b); u -= c; break; }
+  case 2: { auto &&r = (x *= y); same = (&r == &x); rv = r.get(); r *= z; erv = (u *= b); u *= c; break; }
+  case 3: { auto &&r = (x &= y); same = (&r == &x); rv = r.get(); r |= z; erv = (u &= b); u |= c; break; }
+  case 4: { auto &&r = (x |= y); same = (&r == &x); rv = r.get(); r &= z; erv = (u |= b); u &= c; break; }
+  case 5: { auto &&r = (x ^= y); same = (&r == &x); rv = r.get(); r ^= z; erv = (u ^= b); u ^= c; break; }
+  case 6: { auto &&r = ++x; same = (&r == &x); rv = r.get(); auto &&r2 = ++r; same = same && (&r2 == &x); r2 += z; erv = ++u; ++u; u += c; break; }
+  case 7: { auto &&r = --x; same = (&r == &x); rv = r.get(); auto &&r2 = --r; same = same && (&r2 == &x); r2 -= z; erv = --u; --u; u -= c; break; }
+  case 8: { auto &&r = x++; same = (&r == &x); esame = false; rv = r.get(); r += z; erv = u++; break; } // postfix: a copy of the old value
+  default: { auto &&r = x--; same = (&r == &x); esame = false; rv = r.get(); r -= z; erv = u--; break; }
   }
   verif_out("new", bits(x.get()));
-  verif_assert(x.get() == e, "compound assignment / increment stores wrapped(op on the underlying values)");
-  verif_assert(res->get() == r, "value of the expression (new value; old value for postfix)");
-  verif_assert((res == &x) == same_object, "compound assignment and prefix forms return the left operand itself");
-  verif_assert(y.get() == b, "right operand unchanged");
+  verif_assert(rv == erv, "value of the expression (new value; old value for postfix)");
+  verif_assert(same == esame, "compound assignment and prefix forms return the left operand itself, postfix forms a copy");
+  verif_assert(x.get() == u, "the chain (x op= y) op= z through the returned reference equals the built-in chain on the underlying values");
+  verif_assert(y.get() == b && z.get() == c, "right operands unchanged");
   x.get() = b;
   verif_assert(x == y, "get() exposes the wrapped object for writing");
   verif_reach("st_assign-end");
+}
+
+// ---- the right operand IS the left operand
+template <typename T>
+void st_self()
+{
+  T const a{sym<T>("a")};
+  unsigned const op{verif_u8("op")};
+  verif_assume(op < 8);
+  st<T> x{a};
+  st<T> const &alias{x};
+  T u{a};
+  bool same{false};
+  switch (op)
+  {
+  case 0: { auto &&r = (x = alias); same = (&r == &x); break; }
+  case 1: { auto &&r = (x += alias); same = (&r == &x); u = static_cast<T>(a + a); break; }
+  case 2: { auto &&r = (x -= alias); same = (&r == &x); u = static_cast<T>(a - a); break; }
+  case 3: { auto &&r = (x *= alias); same = (&r == &x); u = static_cast<T>(a * a); break; }
+  case 4: { auto &&r = (x &= alias); same = (&r == &x); u = static_cast<T>(a & a); break; }
+  case 5: { auto &&r = (x |= alias); same = (&r == &x); u = static_cast<T>(a | a); break; }
+  case 6: { auto &&r = (x ^= alias); same = (&r == &x); u = static_cast<T>(a ^ a); break; }
+  default: { auto &&r1 = (x += alias); auto &&r = (r1 -= alias); same = (&r1 == &x) && (&r == &x); u = static_cast<T>(a + a - (a + a)); break; } // (x += x) -= x: the right operand has changed too
+  }
+  verif_out("self", bits(x.get()));
+  verif_assert(x.get() == u, "x op= x equals the operation applied with a copy of x");
+  verif_assert(same, "x op= x returns x itself");
+  verif_assert((x + alias).get() == static_cast<T>(u + u) && (x == alias) && !(x < alias), "binary operators with both operands the same object");
+  verif_reach("st_self-end");
 }
 
 // ---- reference: exposes exactly the referenced object
@@ -160,11 +193,17 @@ void rec()
   verif_assert(z == x && &z.get() != &x.get(), "a copy is equal and owns its own object");
   z.get() = n;
   verif_assert(x.get() == a && z.get() == n, "modifying a copy leaves the original unchanged");
-  x = y;
+  {
+    auto &&r = (x = y);
+    verif_assert(&r == &x, "recursive copy assignment returns the target itself");
+  }
   verif_assert(x.get() == b && y.get() == b && &x.get() != &y.get(), "copy assignment copies the value");
   fcppt::recursive<int> m{std::move(z)};
   verif_assert(m.get() == n, "move construction transfers the value");
-  x = std::move(m);
+  {
+    auto &&r = (x = std::move(m));
+    verif_assert(&r == &x, "recursive move assignment returns the target itself");
+  }
   verif_assert(x.get() == n, "move assignment transfers the value");
   verif_reach("rec-end");
 }
@@ -193,11 +232,246 @@ void ptrs()
   verif_assert(fcppt::shared_ptr_hash<fcppt::shared_ptr<int>>{}(s) == fcppt::shared_ptr_hash<fcppt::shared_ptr<int>>{}(t) && std::hash<fcppt::shared_ptr<int>>{}(s) == std::hash<fcppt::shared_ptr<int>>{}(t), "equal shared_ptrs hash equally");
   verif_reach("ptrs-end");
 }
+
+// ---- assignment from a source that lives INSIDE the object the target currently owns
+// node: a value and a vector of recursive<node> (the use case of fcppt::recursive).  The tree
+//   v0 { v1 { v3, v4 { v6 } }, v2 { v5, v7 } }
+// is wrapped in a recursive<node>; the source of the assignment is one of its own sub-objects (or the target is a
+// sub-object of the source).  Afterwards the wrapper must expose a deep copy of the former sub-object: its pre-order
+// flattening (value, number of children, children...) is compared with the flattening taken BEFORE the assignment.
+// An implementation that assigns in place into the existing allocation destroys the source while reading it
+// (use after free / wrong values); leak=1 also demands that every old node is released exactly once.
+struct node
+{
+  int value;
+  std::vector<fcppt::recursive<node>> children;
+};
+node leaf(int const v) { return node{v, {}}; }
+void add(node &parent, node child) { parent.children.push_back(fcppt::recursive<node>{std::move(child)}); }
+constexpr unsigned flat_max{32};
+struct flat { int f[flat_max]; unsigned n; };
+void flatten(node const &nd, flat &out)
+{
+  if (out.n + 2 > flat_max) return;
+  out.f[out.n++] = nd.value;
+  out.f[out.n++] = static_cast<int>(nd.children.size());
+  for (fcppt::recursive<node> const &c : nd.children) flatten(c.get(), out);
+}
+void same_flat(flat const &a, flat const &b, char const *const what)
+{
+  verif_assert(a.n == b.n, what);
+  for (unsigned i = 0; i < a.n && i < b.n; ++i) verif_assert(a.f[i] == b.f[i], what);
+}
+
+void rec_alias()
+{
+  int v[8];
+  for (int &x : v) x = static_cast<int>(verif_u32("v"));
+  unsigned const op{static_cast<unsigned>(verif_param("op"))};
+  node root{leaf(v[0])};
+  {
+    node c0{leaf(v[1])}, c1{leaf(v[2])}, g1{leaf(v[4])};
+    add(g1, leaf(v[6]));
+    add(c0, leaf(v[3]));
+    add(c0, std::move(g1));
+    add(c1, leaf(v[5]));
+    add(c1, leaf(v[7]));
+    add(root, std::move(c0));
+    add(root, std::move(c1));
+  }
+  if (op == 7)
+  {
+    // a wider tree for the middle-child case:  v0 { v1 {v3}, v2 { v4, v5 {v7}, v6 }, v3 }
+    root = leaf(v[0]);
+    node a{leaf(v[1])}, m{leaf(v[2])}, m1{leaf(v[5])};
+    add(a, leaf(v[3]));
+    add(m1, leaf(v[7]));
+    add(m, leaf(v[4]));
+    add(m, std::move(m1));
+    add(m, leaf(v[6]));
+    add(root, std::move(a));
+    add(root, std::move(m));
+    add(root, leaf(v[3]));
+  }
+  fcppt::recursive<node> tree{std::move(root)};
+  flat expected{{}, 0}, got{{}, 0};
+  bool same{false};
+  switch (op)
+  {
+  case 7: // middle one of three children, itself having three children
+  {
+    fcppt::recursive<node> const &src{tree.get().children[1]};
+    flatten(src.get(), expected);
+    auto &&r = (tree = src);
+    same = (&r == &tree);
+    break;
+  }
+  case 0: // first child (which has two children of its own)
+  {
+    fcppt::recursive<node> const &src{tree.get().children.front()};
+    flatten(src.get(), expected);
+    auto &&r = (tree = src);
+    same = (&r == &tree);
+    break;
+  }
+  case 1: // last child
+  {
+    fcppt::recursive<node> const &src{tree.get().children.back()};
+    flatten(src.get(), expected);
+    auto &&r = (tree = src);
+    same = (&r == &tree);
+    break;
+  }
+  case 2: // grandchild with a child of its own
+  {
+    fcppt::recursive<node> const &src{tree.get().children.front().get().children.back()};
+    flatten(src.get(), expected);
+    auto &&r = (tree = src);
+    same = (&r == &tree);
+    break;
+  }
+  case 3: // self assignment
+  {
+    fcppt::recursive<node> const &src{tree};
+    flatten(src.get(), expected);
+    auto &&r = (tree = src);
+    same = (&r == &tree);
+    break;
+  }
+  case 4: // move assignment from the first child
+  {
+    fcppt::recursive<node> &src{tree.get().children.front()};
+    flatten(src.get(), expected);
+    auto &&r = (tree = std::move(src));
+    same = (&r == &tree);
+    break;
+  }
+  case 5: // move assignment from a grandchild
+  {
+    fcppt::recursive<node> &src{tree.get().children.front().get().children.back()};
+    flatten(src.get(), expected);
+    auto &&r = (tree = std::move(src));
+    same = (&r == &tree);
+    break;
+  }
+  default: // the TARGET is a sub-object of the source: first child := whole tree
+  {
+    fcppt::recursive<node> &dst{tree.get().children.front()};
+    flat whole{{}, 0}, last{{}, 0};
+    flatten(tree.get(), whole);
+    flatten(tree.get().children.back().get(), last);
+    auto &&r = (dst = tree);
+    same = (&r == &tree.get().children.front());
+    // expected: v0, 2, <old whole tree>, <old last child>
+    expected.f[expected.n++] = v[0];
+    expected.f[expected.n++] = 2;
+    for (unsigned i = 0; i < whole.n; ++i) expected.f[expected.n++] = whole.f[i];
+    for (unsigned i = 0; i < last.n; ++i) expected.f[expected.n++] = last.f[i];
+    break;
+  }
+  }
+  flatten(tree.get(), got);
+  verif_out("nodes", got.n);
+  verif_out("root", static_cast<std::uint32_t>(tree.get().value));
+  same_flat(got, expected, "after assigning from its own sub-object the wrapper exposes a deep copy of the former sub-object");
+  verif_assert(same, "recursive assignment returns the target itself");
+  // the result is independent of anything that was freed: modify and re-read
+  tree.get().value = 1;
+  verif_assert(tree.get().value == 1, "the wrapped object is writable after the assignment");
+  verif_reach("rec_alias-end");
+}
+
+// unique_ptr / shared_ptr: a singly linked list  n0 -> n1 -> n2 ; head is (re)assigned from the link stored in the node
+// it owns.  fcppt::unique_ptr / shared_ptr are never null, the link is an optional.
+struct unode
+{
+  int value;
+  fcppt::optional::object<fcppt::unique_ptr<unode>> next;
+};
+struct snode
+{
+  int value;
+  fcppt::optional::object<fcppt::shared_ptr<snode>> next;
+};
+
+void uptr_alias()
+{
+  int const a{static_cast<int>(verif_u32("a"))}, b{static_cast<int>(verif_u32("b"))}, c{static_cast<int>(verif_u32("c"))};
+  using link = fcppt::optional::object<fcppt::unique_ptr<unode>>;
+  fcppt::unique_ptr<unode> head{fcppt::make_unique_ptr<unode>(unode{a, link{fcppt::make_unique_ptr<unode>(unode{b, link{fcppt::make_unique_ptr<unode>(unode{c, link{}})}})}})};
+  verif_assert(head->value == a && head->next.get_unsafe()->value == b, "list built");
+  unode *const second{head->next.get_unsafe().get_pointer()};
+  {
+    auto &&r = (head = std::move(head->next.get_unsafe())); // the source is a member of the object head owns
+    verif_assert(&r == &head, "unique_ptr move assignment returns the target itself");
+  }
+  verif_assert(head.get_pointer() == second, "after head = move(head->next) head owns the former second node (not a copy)");
+  verif_assert(head->value == b && head->next.has_value() && head->next.get_unsafe()->value == c && !head->next.get_unsafe()->next.has_value(), "the rest of the list is intact");
+  {
+    auto &&r = (head = std::move(head->next.get_unsafe()));
+    verif_assert(&r == &head, "unique_ptr move assignment returns the target itself (second step)");
+  }
+  verif_assert(head->value == c && !head->next.has_value(), "second step reaches the last node");
+  verif_reach("uptr_alias-end");
+}
+
+void sptr_alias()
+{
+  int const a{static_cast<int>(verif_u32("a"))}, b{static_cast<int>(verif_u32("b"))}, c{static_cast<int>(verif_u32("c"))};
+  unsigned const op{static_cast<unsigned>(verif_param("op"))};
+  using link = fcppt::optional::object<fcppt::shared_ptr<snode>>;
+  fcppt::shared_ptr<snode> head{fcppt::make_shared_ptr<snode>(snode{a, link{fcppt::make_shared_ptr<snode>(snode{b, link{fcppt::make_shared_ptr<snode>(snode{c, link{}})}})}})};
+  snode *const first{head.get_pointer()};
+  snode *const second{head->next.get_unsafe().get_pointer()};
+  bool same{false};
+  switch (op)
+  {
+  case 0: // copy assignment from the link inside the owned node
+  {
+    auto &&r = (head = head->next.get_unsafe());
+    same = (&r == &head);
+    verif_assert(head.get_pointer() == second && head.use_count() == 1, "head = head->next: head shares the second node, the first node (and its link) is released");
+    break;
+  }
+  case 1: // move assignment from the link inside the owned node
+  {
+    auto &&r = (head = std::move(head->next.get_unsafe()));
+    same = (&r == &head);
+    verif_assert(head.get_pointer() == second && head.use_count() == 1, "head = move(head->next): head owns the second node");
+    break;
+  }
+  case 2: // self assignment
+  {
+    fcppt::shared_ptr<snode> const &alias{head};
+    auto &&r = (head = alias);
+    same = (&r == &head);
+    verif_assert(head.get_pointer() == first && head.use_count() == 1 && head->value == a, "self assignment keeps the object and the count");
+    break;
+  }
+  default: // a cycle-free re-link: the second node's link := head's copy of the third, through the owner chain
+  {
+    fcppt::shared_ptr<snode> third{head->next.get_unsafe()->next.get_unsafe()};
+    auto &&r = (head->next.get_unsafe() = third); // drops the second node while assigning into the first one's link
+    same = (&r == &head->next.get_unsafe());
+    verif_assert(head.get_pointer() == first && head->next.get_unsafe().get_pointer() == third.get_pointer() && third.use_count() == 2, "re-linking past a node releases exactly that node");
+    verif_assert(head->next.get_unsafe()->value == c, "the third node is intact");
+    break;
+  }
+  }
+  verif_assert(same, "shared_ptr assignment returns the target itself");
+  if (op <= 1) verif_assert(head->value == b && head->next.has_value() && head->next.get_unsafe()->value == c && head->next.get_unsafe().use_count() == 1, "the rest of the list is intact");
+  verif_reach("sptr_alias-end");
+}
 }
 
 #define H(name, ...) VERIF_HARNESS(name) { __VA_ARGS__; }
 H(h_st_binary_int, st_binary<int>()) H(h_st_binary_uint, st_binary<unsigned>()) H(h_st_assign_int, st_assign<int>()) H(h_st_assign_uint, st_assign<unsigned>())
 H(h_ref, ref()) H(h_rec, rec()) H(h_ptrs, ptrs())
+H(h_st_self_int, st_self<int>()) H(h_st_self_uint, st_self<unsigned>()) H(h_rec_alias, rec_alias()) H(h_uptr_alias, uptr_alias()) H(h_sptr_alias, sptr_alias())
+//@harness h_st_self_{T} for T in int,uint tier=quick
+//@harness h_rec_alias param op=0..7 tier=quick loop=200 leak=1
+//@harness h_uptr_alias tier=quick leak=1
+//@harness h_sptr_alias param op=0..3 tier=quick leak=1
 //@harness h_st_binary_{T} for T in int,uint tier=quick
 //@harness h_st_assign_{T} for T in int,uint tier=quick
 //@harness h_ref tier=quick
